@@ -11,6 +11,8 @@ executed by binding the real JAX primitive.
 """
 from __future__ import annotations
 
+import os
+
 import itertools
 import math
 from fractions import Fraction
@@ -292,9 +294,15 @@ _CALL_PRIMS = {"jit", "pjit", "closed_call", "core_call", "custom_jvp_call", "cu
 _TRANSCENDENTAL = {"exp", "exp2", "log", "log1p", "expm1", "sin", "cos", "tan", "tanh", "sqrt", "rsqrt", "cbrt", "pow", "atan2", "erf", "logistic", "asin", "acos", "atan", "sinh", "cosh"}
 
 
+_INTERP_SERIAL = [0]
+
+
 class Interp:
     def __init__(self, tag=""):
-        self.tag = tag  # distinguishes Ackermann variables of different runs
+        # Ackermann variables are named after the run: the serial number makes the names unique even when two encodings
+        # are given the same tag (same-named variables of different runs would be ONE solver variable)
+        _INTERP_SERIAL[0] += 1
+        self.tag = f"{tag}{_INTERP_SERIAL[0]}x" if not os.environ.get("VERIF_OLD_TAGS") else tag
         self.ackdefs = {}
         self.sqrt_facts = []
         self.calls = {}  # primitive name -> list of dict(arg=..., out=...)
